@@ -1,6 +1,6 @@
 """Shared recipe of C22 and C29: spec/Gov/CR.tla + Proposal.tla checked by TLC and replayed
 on the real crstate.Committee by harness/cmd/crstate."""
-import json, os, random, re
+import json, os, random, re, time
 import vf
 
 CONST = dict(NCR=3, NProps=2, NOwners=2, NVoters=2, MemberCount=3, AgreeCount=2, VotingPeriod=8, ClaimPeriod=1,
@@ -117,10 +117,15 @@ class Session:
     def __init__(self, chk, binary=None):
         self.chk = chk
         self.rng = random.Random(vf.seed())
+        t0 = time.time()
         self.binary = binary or vf.go_build("crstate")
+        self.phase("go build", t0)
         self.preambles = {}
         self.behs = []          # (label, behaviours)
         self.jobs = []
+
+    def phase(self, name, t0):
+        self.chk.cov.setdefault("phases_s", []).append([name, round(time.time() - t0, 1)])
 
     def job(self, label, scenario, kinds, steps, emit="", workers=1, simulate=None, limit=None, rolls=1, maxtx=2, timeout=1500,
             rolldepth=3):
@@ -132,26 +137,30 @@ class Session:
                           inv=as_is_inv(), rolldepth=j["rolldepth"], sim=bool(j["simulate"]))
         name = "cr-%s.cfg" % re.sub(r"[^a-z0-9]+", "-", j["label"].lower())[:48]
         r = vf.tlc("Gov", "MCCR", name, cfg_text=text, files=files, workers=j["workers"], timeout=j["timeout"],
+                   jvm=("-Xmx4g", "-XX:ParallelGCThreads=2", "-XX:CICompilerCount=2"),
                    simulate=j["simulate"], depth=(j["steps"] + 40) if j["simulate"] else None,
                    seed_arg=vf.seed() if j["simulate"] else None)
         return j, r
 
     def run_jobs(self, parallel=4):
         import concurrent.futures
+        t0 = time.time()
         vf._copy_spec(os.path.join(vf.SPEC, "Gov"))       # once, before the threads
         with concurrent.futures.ThreadPoolExecutor(max_workers=parallel) as ex:
             results = list(ex.map(self._run, self.jobs))
         self.jobs = []
+        self.phase("tlc", t0)
+        t0 = time.time()
         for j, r in results:
             vf.tlc_ok(r, j["label"])
             self.chk.add_tlc(r, j["label"])
             self.preambles[j["scenario"]] = preamble_of(r)
             if j["emit"]:
-                behs, st = vf.behaviours(r, limit=j["limit"], rng=self.rng, per_class=max(4, (j["limit"] or 1000) // 60),
-                                         strat_key=strat)
+                behs, st = fast_behaviours(r, j["limit"], self.rng)
                 st["label"] = j["label"]
                 self.chk.cov.setdefault("extraction", []).append(st)
                 self.behs.append((j["label"], behs))
+        self.phase("parse behaviours", t0)
 
     def replay(self, sweep, shards=8, timeout=3000):
         cfgp = driver_cfg(self.preambles)
@@ -160,8 +169,10 @@ class Session:
             allb += behs
         path = os.path.join(vf.scratch(), "crstate-behaviours.jsonl")
         vf.write_json_lines(path, allb)
+        t0 = time.time()
         recs = vf.run_sharded(self.binary, lambda i, n: ["replay", cfgp, path, str(sweep), str(i), str(n)], shards=shards,
                               timeout=timeout)
+        self.phase("replay", t0)
         self.chk.absorb(recs, "replay of %d behaviours (rollback sweep level %d)" % (len(allb), sweep))
         return cfgp, allb
 
@@ -170,6 +181,40 @@ class Session:
         vf.write_json_lines(p, behs)
         recs, _ = vf.run_driver(self.binary, ["replay", cfgp, p, str(sweep)], env=env, timeout=600)
         return recs
+
+
+def fast_behaviours(res, limit, rng):
+    """vf.behaviours for large outputs: a behaviour is identified by its actions and arguments (the states are a
+    function of them), prefixes of other behaviours are dropped, the rest is stratified by the kinds of the last step."""
+    seen, behs = set(), []
+    with open(res["outfile"], errors="replace") as f:
+        for line in f:
+            if line.startswith('<<"TRACE", '):
+                b = json.loads(json.loads(line.rstrip("\n")[len('<<"TRACE", '):-2]))
+                k = tuple(x["act"] + json.dumps(x["args"], sort_keys=True) for x in b)
+                if k not in seen:
+                    seen.add(k)
+                    behs.append((k, b))
+    prefixes = {k[:-1] for k, _ in behs}
+    total = len(behs)
+    behs = sorted((kb for kb in behs if kb[0] not in prefixes), key=lambda kb: kb[0])
+    stats = dict(edges_total=total, maximal=len(behs))
+    classes = {}
+    for k, b in behs:
+        classes.setdefault(strat(b), []).append((k, b))
+    stats["classes"] = len(classes)
+    if limit is not None and len(behs) > limit:
+        per = max(2, limit // max(1, len(classes)))
+        sel, rest = [], []
+        for c in sorted(classes):
+            v = classes[c]
+            rng.shuffle(v)
+            sel += v[:per]
+            rest += v[per:]
+        rng.shuffle(rest)
+        behs = sorted((sel + rest)[:limit], key=lambda kb: kb[0])
+    stats["selected"] = len(behs)
+    return [b for _, b in behs], stats
 
 
 def strat(b):
